@@ -102,6 +102,18 @@ PrefixedRs(ins) ==
 SharingPattern(ins, badRs) ==
     IF badRs \subseteq PrefixedRs(ins) THEN "in-preexisting-prefixed-wrapper" ELSE "plain"
 
+\* attribution of a sharing failure: "kind of the parent : child position" of every
+\* occurrence of a badly shared operation in the outputs that has no wrapper directly
+\* around it ("top": the occurrence is a whole output)
+RECURSIVE HostsOf(_, _)
+HostsOf(e, Rs) ==
+    UNION { (IF IsOp(Kids(e)[i]) /\ ~IsW(e) /\ RecKey(Kids(e)[i]) \in Rs
+             THEN { e.t \o ":" \o ToString(i) } ELSE {})
+            \cup HostsOf(Kids(e)[i], Rs) : i \in 1..Len(Kids(e)) }
+SharingHosts(outs, Rs) ==
+    SetToSeq(UNION { (IF IsOp(outs[j]) /\ RecKey(outs[j]) \in Rs THEN { "top" } ELSE {})
+                     \cup HostsOf(outs[j], Rs) : j \in 1..Len(outs) })
+
 (***************************************************************************)
 (* M-layer: declarative predicates on (inputs, outputs) of a tagging call. *)
 (***************************************************************************)
